@@ -85,10 +85,24 @@ Theorem C13_normalize_spelling :
 Proof. exact normalize_spelling. Qed.
 Print Assumptions C13_normalize_spelling.
 
-(* partial: see the comment in HdrProofs.v *)
-Theorem C13_spelling_labels_partial :
-  forall h h',
-  respelled h h' ->
-  norm_labels h = norm_labels h' /\ (forall want, nfind want h = nfind want h').
-Proof. exact spelling_labels_partial. Qed.
-Print Assumptions C13_spelling_labels_partial.
+(* the verdict does not depend on which Go integer type spells a label *)
+Theorem C13_validate_params_spelling :
+  forall h h' prot,
+  respelled h h' -> validate_params h prot = validate_params h' prot.
+Proof. exact validate_params_spelling. Qed.
+Print Assumptions C13_validate_params_spelling.
+
+(* the direct-hit shortcut of the by-value look-up agrees with the scan when labels are unique *)
+Theorem C13_nlookup_is_nfind :
+  forall h ks l,
+  norm_labels h = Some ks -> labels_nodup ks = true ->
+  nlookup l h = match normalize_label l with Some want => nfind want h | None => None end.
+Proof. exact nlookup_is_nfind. Qed.
+Print Assumptions C13_nlookup_is_nfind.
+
+Theorem C13_respelled_example :
+  respelled [GInt KInt64 4; GBytes [1]; GInt KInt64 2; GArr [GInt KInt64 4]]
+            [GInt KInt8 4; GBytes [1]; GInt KUint16 2; GArr [GInt KInt64 4]] /\
+  validate_params [GInt KInt8 4; GBytes [1]; GInt KUint16 2; GArr [GInt KInt64 4]] true = true.
+Proof. exact respelled_example. Qed.
+Print Assumptions C13_respelled_example.
